@@ -285,7 +285,20 @@ func (m *Replica) Action(action string, obj interface{}) error {
 		m.Remain--
 	case "revert":
 		if n, ok := obj.(*string); ok {
+			// the replica reverts to a snapshot disk of its chain and refuses anything else
+			at := -1
+			for i := 1; i < len(m.Chain); i++ {
+				if m.Chain[i] == *n {
+					at = i
+				}
+			}
+			if at < 0 {
+				m.FailedActions = append(m.FailedActions, "revert-refused")
+				return errors.New("zz: cannot revert to a disk that is not a snapshot of the chain")
+			}
 			m.RevertedTo = append(m.RevertedTo, *n)
+			nc := []string{"volume-head-r" + strconv.Itoa(len(m.RevertedTo)) + ".img"}
+			m.Chain = append(nc, m.Chain[at:]...)
 		}
 	case "resize":
 		in := *(obj.(*map[string]interface{}))
